@@ -19,18 +19,18 @@ func with(base propFn, extra ...propFn) propFn {
 
 // Registry maps a property id to the function that adds its obligations to the report.
 var Registry = map[string]func(*core.Prog, *core.Report){
-	"C01": with(C01, frameGroup, batchGroup, vf0RecordCarriesArgs, nil1LookupTested),
-	"C02": with(C02, frameGroup, batchGroup, mergeGroup, cf2RecoveryIgnoresLimit, cl1CloseAll, fn1NamesSortLikeIds),
+	"C01": with(C01, frameGroup, batchGroup, vf0RecordCarriesArgs, nil1LookupTested, err1WrapPolarity),
+	"C02": with(C02, frameGroup, batchGroup, mergeGroup, cf2RecoveryIgnoresLimit, cl1CloseAll, cl1bCloseLoopComplete, fn1NamesSortLikeIds),
 	"C03": with(C03, frameGroup, batchGroup, mergeGroup),
 	"C04": with(C04, batchGroup, frameGroup, ps3Rotate),
-	"C05": with(C05, batchGroup, vf0RecordCarriesArgs, nil1LookupTested),
+	"C05": with(C05, batchGroup, vf0RecordCarriesArgs, nil1LookupTested, err1WrapPolarity),
 	"C06": with(C06, mergeGroup),
 	"C07": with(C07, mergeGroup, mergeFlagRules, rm1RemovalTargets),
 	"C08": with(C08, func(p *core.Prog, rep *core.Report) {
 		newVF(p, rep).vf2(nil)
 	}, pool2SingleRelease, pool4NoUseAfterRelease, cd7LogicalSize),
 	"C09": with(C09, pool2SingleRelease, pool3BufferSingleRelease, pool4NoUseAfterRelease, bt1PutType, lk13BackendState, nil1LookupTested),
-	"C10": with(C10, it1FilterAfterMove, it1bDelegation),
+	"C10": with(C10, it1FilterAfterMove, it1bDelegation, it2FilterPolarity),
 	"C11": with(C11, frameGroup),
 	"C12": with(C12, frameGroup),
 	"C13": with(C13, cfg1OptionsImmutable),
@@ -40,7 +40,7 @@ var Registry = map[string]func(*core.Prog, *core.Report){
 	"C17": with(C17, bt3FlushLoopComplete, cd11Only, tb3bIndexImplParity),
 	"C18": with(C18, mergeGroup, cd11Only),
 	"C19": with(C19, batchGroup),
-	"C20": with(C20, ps5MergeOnly, lk13BackendState, vf3MergeOnly),
+	"C20": with(C20, ps5MergeOnly, lk13BackendState, vf3MergeOnly, cp2BackupCopies, err1WrapPolarity),
 }
 
 // mg3Only: Merge's liveness test compares the complete position (C14: the file-size limit decides how many files a
